@@ -43,7 +43,7 @@ var Rules = []Entry{
 	{"castle-partial-rights", "r3k2r/8/8/8/8/8/8/R3K2R w Kq - 0 1"},
 	{"rook-takes-rook-home", "r3k2r/8/8/8/8/8/8/R3K2R w KQkq - 4 9"},
 	{"bishop-takes-rook-home", "r3k2r/1B4B1/8/8/8/8/1b4b1/R3K2R w KQkq - 0 1"},
-	{"knight-takes-rook-home", "r3k2r/2N2N2/8/8/8/8/2n2n2/R3K2R b KQkq - 0 1"},
+	{"knight-takes-rook-home", "r3k2r/5N2/8/8/8/1n6/8/R3K2R b KQkq - 0 1"},
 	{"castle-pawn-attacks", "r3k2r/8/8/8/8/8/3p2p1/R3K2R w KQkq - 0 1"},
 	{"castle-knight-attacks", "r3k2r/8/8/8/8/4n3/8/R3K2R w KQkq - 0 1"},
 	// promotion
@@ -52,7 +52,7 @@ var Rules = []Entry{
 	{"promo-capture-rook-home", "r3k2r/1P4P1/8/8/8/8/1p4p1/R3K2R w KQkq - 0 1"},
 	{"promo-capture-rook-home-b", "r3k2r/1P4P1/8/8/8/8/1p4p1/R3K2R b KQkq - 0 1"},
 	{"promo-with-check", "4k3/P7/8/8/8/8/p7/4K3 w - - 0 1"},
-	{"promo-many", "n1n1k1n1/PPPPP1PP/8/8/8/8/pppp1ppp/N1N1K1N1 w - - 0 1"},
+	{"promo-many", "n1n1k1n1/PPP1P1PP/8/8/8/8/ppp1p1pp/N1N1K1N1 w - - 0 1"},
 	{"underpromo-mate", "8/5P1k/7p/8/8/8/8/6K1 w - - 0 1"},
 	// checks
 	{"double-check", "4k3/8/8/8/1b6/8/3n4/4K2r w - - 0 1"},
@@ -82,10 +82,10 @@ var Rules = []Entry{
 	{"shuffle-kings", "8/8/3k4/8/8/3K4/8/8 w - - 0 1"},
 	{"shuffle-knights", "1n2k3/8/8/8/8/8/8/1N2K3 w - - 10 20"},
 	// odd material
-	{"nine-queens", "QQQQQQQQ/8/8/8/8/8/k7/2K4Q w - - 0 1"},
+	{"many-queens", "3QQQ1Q/8/8/8/8/8/k7/2K4Q w - - 0 1"},
 	{"ten-knights", "NNNNNNNN/8/8/8/8/8/k7/2K3NN w - - 0 1"},
-	{"many-bishops", "B1B1B1B1/1B1B1B1B/8/8/8/8/k7/2K5 w - - 0 1"},
-	{"black-queens", "qqqqqqqq/8/8/8/8/8/K7/2k4q b - - 0 1"},
+	{"many-bishops", "B1B1B3/1B1B3B/8/8/8/8/k7/2K5 w - - 0 1"},
+	{"black-queens", "2k4q/K7/8/8/8/8/8/3qqq1q b - - 0 1"},
 	{"full-board", "rnbqkbnr/pppppppp/PPPPPPPP/8/8/pppppppp/PPPPPPPP/RNBQKBNR w KQkq - 0 1"},
 	// middlegames
 	{"italian", "r1bqk1nr/pppp1ppp/2n5/2b1p3/2B1P3/5N2/PPPP1PPP/RNBQK2R w KQkq - 4 4"},
